@@ -113,6 +113,11 @@ pub enum StatusRes {
         max: u32,
         description: String,
     },
+    /// a status with a favicon of this many base64 characters (a 64x64 PNG is 2-30 KB) and a player sample
+    Big {
+        favicon_len: usize,
+        sample: usize,
+    },
     Error,
 }
 
@@ -329,6 +334,17 @@ impl StatusAdapter for SimStatus {
                 .ok(),
                 favicon: Some("data:image/png;base64,AAAA".into()),
                 enforces_secure_chat: Some(true),
+            })),
+            StatusRes::Big { favicon_len, sample } => Ok(Some(ServerStatus {
+                version: ServerVersion { name: "Sim 1.21.4".into(), protocol },
+                players: Some(ServerPlayers {
+                    online: *sample as u32,
+                    max: 1000,
+                    sample: Some((0..*sample).map(|k| ServerPlayer { name: format!("player_{k}"), id: format!("00000000-0000-0000-0000-{k:012x}") }).collect()),
+                }),
+                description: serde_json::value::RawValue::from_string("{\"text\":\"big\"}".into()).ok(),
+                favicon: Some(format!("data:image/png;base64,{}", "iVBORw0KGgo".repeat(favicon_len / 11 + 1))),
+                enforces_secure_chat: None,
             })),
             StatusRes::Error => Err(sim_err()),
         };
